@@ -278,7 +278,7 @@ Proof.
   intros c s n pos pep Hv Hp Hu Hd Hc Hch Hcw.
   set (s1 := set_up (set_ch (set_cw (set_pending s n) []) NoCh (g_pos s)) (UHub UInsuff)).
   assert (S1 : step c s (LUnsub UInsuff) = Some s1).
-  { unfold step, up_idle, is_server. rewrite Hu, Hp, Hv, Hch, Hcw. destruct (c_fix_delw c); reflexivity. }
+  { unfold step, up_idle, insuff_disc. rewrite Hu, Hp, Hv, Hch, Hcw. destruct (c_fix_delw c); reflexivity. }
   set (s2 := set_up (set_hub (if c_fix_delw c then set_cw s1 [] else s1) false) (UOut UInsuff)).
   assert (S2 : step c s1 LUnsubHub = Some s2).
   { unfold step, dl_idle. change (up s1) with (UHub UInsuff). change (dl s1) with (dl s). rewrite Hd. reflexivity. }
@@ -293,11 +293,11 @@ Qed.
 
 (* Server-side subscription: it closes the connection with the insufficient-state code. *)
 Theorem c01_pending_ends_server : forall c s n,
-  c_var c = VServer -> pending s = S n -> closed s = false -> cw s = [] ->
+  insuff_disc c = true -> pending s = S n -> closed s = false -> cw s = [] ->
   exists s', step c s LAsyncDisc = Some s' /\
              log s' = log s ++ [FDisconnect code_disc_insufficient] /\ closed s' = true.
 Proof.
-  intros c s n Hv Hp Hc Hcw. unfold step, is_server. rewrite Hp, Hv, Hc, Hcw. cbn [negb app emits].
+  intros c s n Hv Hp Hc Hcw. unfold step. rewrite Hp, Hv, Hc, Hcw. cbn [negb app emits].
   rewrite emit_eq. change (closed (set_pending s n)) with (closed s). rewrite Hc.
   eexists. split; [reflexivity|]. cbn. auto.
 Qed.
